@@ -28,7 +28,7 @@ DECIDES = ('(ORD) every slot table of TypeSlots.SlotTable lists its rows in the 
            '(DISP) on every path of the generated slot function, for overloads (1,1), (1,0), (0,1): call_left and call_right are each evaluated at most once, a user method only '
            'under a flag computed from a type test of its self operand, and the function does not give up with NotImplemented while a set flag\'s call has not been tried.')
 NOT_DECIDED = ('which of call_left/call_right runs first inside the BinopSlot template for subclass operands, and whether a NotImplemented result of the first call is really '
-               'followed by the second (a `return res` without the test is not seen); same-exact-type operands (rule C28-SAME in rules/sC28.py is a pending finding and not registered); '
+               'followed by the second (a `return res` without the test is not seen); the run-time outcome for same-exact-type operands beyond the structural rule C28-SAME (registered after the repair e7f0c120c); '
                'which of __eq__/__ne__ is consulted by a derived ordering; slot inheritance and the type-spec path (CYTHON_USE_TYPE_SPECS) beyond slot names; '
                'in-place operator fallback (done by CPython itself); the choice of the total_ordering root (max of names, as functools).')
 ASSUMPTIONS = ['the installed CPython headers (sysconfig include dir) describe the struct layout the generated C is compiled against',
@@ -899,4 +899,4 @@ def rule_TPL(ctx, ext):
 def run(ctx):
     ext = extract_tables(ctx)
     from ..rules import sC28
-    return [rule_ORD(ctx, ext), rule_DUN(ctx, ext), rule_SIG(ctx, ext), rule_TO(ctx), rule_TPL(ctx, ext), sC28.rule_dispatch(ctx)]
+    return [rule_ORD(ctx, ext), rule_DUN(ctx, ext), rule_SIG(ctx, ext), rule_TO(ctx), rule_TPL(ctx, ext), sC28.rule_dispatch(ctx), sC28.rule_same_type(ctx)]
